@@ -147,6 +147,44 @@ pub fn c02(ctx: &mut Ctx, tier: &str, seed: u64) {
             ctx.fail("decomposition-vs-grammar", None, rp.clone(), format!("impl {} grammar {}", show_sc(&got_sc), show_sc(&d.comps)));
             continue;
         }
+        // the decomposition is the same from the back and under interleavings of both ends
+        {
+            let mut back: Vec<SComp> = p.components().rev().map(|c| sc_w(&c)).collect();
+            back.reverse();
+            if back != d.comps {
+                ctx.fail("decomposition-vs-grammar-from-back", None, format!("back w {}", hex(s)), format!("impl(reversed) {} grammar {}", show_sc(&back), show_sc(&d.comps)));
+            }
+            let n = d.comps.len();
+            let mut rng2 = Rng::new(0xc02 ^ s.len() as u64);
+            for m in all_masks(n + 1, 4, &mut rng2) {
+                let mut it = p.components();
+                let (mut lo, mut hi) = (0usize, n);
+                let mut bad = None;
+                for (i, bk) in m.iter().enumerate() {
+                    let x = if *bk { it.next_back() } else { it.next() }.map(|c| sc_w(&c));
+                    let y = if lo < hi {
+                        if *bk {
+                            hi -= 1;
+                            Some(d.comps[hi].clone())
+                        } else {
+                            lo += 1;
+                            Some(d.comps[lo - 1].clone())
+                        }
+                    } else {
+                        None
+                    };
+                    let rem: Vec<SComp> = it.clone().map(|c| sc_w(&c)).collect();
+                    if x != y || rem != d.comps[lo..hi] {
+                        bad = Some(format!("step {}: got {:?} want {:?}; rest {} want {}", i, x, y, show_sc(&rem), show_sc(&d.comps[lo..hi])));
+                        break;
+                    }
+                }
+                if let Some(dd) = bad {
+                    ctx.fail("interleaving-vs-grammar", None, format!("mix w {} {}", hex(s), mask_str(&m)), dd);
+                    break;
+                }
+            }
+        }
         // at most one prefix, only in first position, raw text is the leading bytes
         for (i, c) in got.iter().enumerate() {
             if let WindowsComponent::Prefix(pc) = c {
